@@ -1,7 +1,7 @@
 // target: src/sync.rs
 // labels: store.get_range.* store.get_fingerprint.* store.get_first.* bounds.from_start.* bounds.to_end.* bounds.namespace.* bounds.new.*
 // tier: quick
-// bound: one store with three documents, two authors, keys over {"", a, ab, b, [61 ff]} (12 rows per document); for every document as
+// bound: one store with three documents, two authors, keys over {"", a, ab, b, [61 ff]} (10 rows per document, one deletion marker per author); for every document as
 // the replica and every pair (x, y) of ids out of its rows (plus the default id with itself): get_range, get_range_len, get_fingerprint and get_first
 // compared with the ordered-map definition (x<y: [x,y); x>y: ids < y followed by ids >= x; x==y: everything), other documents' rows
 // must never appear. A fourth, empty document whose id sorts below another document's: get_first is the default id, the full range is empty.
@@ -34,7 +34,9 @@ mod verif_rp_c08_range {
             let mut t = 100;
             for a in &authors { for k in &ks {
                 t -= 1;
-                let e = SignedEntry::from_parts(ns, a, k, Record { hash: Hash::new(b"x"), len: 1, timestamp: base + t });
+                // one deletion marker per author and document (key [62]): markers are rows like any other for ranges and fingerprints
+                let (hash, len) = if *k == vec![0x62u8] { (Hash::EMPTY, 0) } else { (Hash::new(b"x"), 1) };
+                let e = SignedEntry::from_parts(ns, a, k, Record { hash, len, timestamp: base + t });
                 r.insert_remote_entry(e, [1u8; 32], ContentStatus::Missing).await.unwrap();
             } }
             drop(r);
